@@ -43,7 +43,7 @@ def r17_1(ctx, b, m):
     if 'MoveTo' in m.arms:
         region = arm_region(cfg, m.bb, m.arms['MoveTo'])
         cl = [c for c in closes if c in region]
-        stores = [pt for addr, val, pt, kind in an.stores if is_ws_field(addr, 'current_point') and pt[0] in region and kind == 'assign']
+        stores = [pt for addr, val, pt, kind in an.stores if is_ws_field(addr, 'current_point') and pt[0] in region and kind in ('assign', 'local')]
         ok = bool(cl) and bool(stores) and all(any(cfg.dominates(c, pt[0]) for c in cl) for pt in stores)
         ctx.check(ok, R, key + '|close before MoveTo', b.loc(), 'MoveTo closes the previous subpath before moving the cursor',
                   'the MoveTo arm does not call WindState::close before it moves the cursor: an open subpath is not closed when the next one starts')
@@ -83,7 +83,7 @@ def r17_3(ctx, b, m):
             ok = (a1[0] == 'field' and a1[4] == 'Some' and is_ws_field(a1[1], 'current_point')
                   and a2[0] == 'field' and a2[3] == PATHOP and a2[4] == 'LineTo' and a2[2] == '0')
         ctx.check(ok, R, key + '|LineTo edge', b.loc(), 'LineTo adds the edge cursor -> point', 'the LineTo arm does not add exactly the edge (cursor, point)')
-        cur_stores = [(val, pt) for addr, val, pt, kind in an.stores if is_ws_field(addr, 'current_point') and pt[0] in region and kind == 'assign']
+        cur_stores = [(val, pt) for addr, val, pt, kind in an.stores if is_ws_field(addr, 'current_point') and pt[0] in region and kind in ('assign', 'local')]
         stop = an.cfg.ipdom(m.bb)
         okp, _ = an.cfg.must_pass_through(m.arms['LineTo'], set(pt[0] for _, pt in cur_stores), exits=[stop] if stop is not None else None)
         okv = all(v[0] == 'agg' and v[3] == 'Some' and strip_all(v[4][0][1])[0] == 'field' and strip_all(v[4][0][1])[4] == 'LineTo' for v, _ in cur_stores)
